@@ -6,7 +6,7 @@
    read from accounts.go / passwd.go / group.go / paths.go on this run
    (Generated/C13Consts.v); [maxl] is the filesystems' symlink nesting limit. *)
 From Apko Require Import Base.Prelude Model.C13Fs Model.Accounts Model.PathMut Model.C13Build Generated.C13Consts
-  Spec.AccountsSpec Spec.PathMutSpec Proofs.AccountsProofs Proofs.AccountsCodec Proofs.PathMutProofs Proofs.PathMutBuild.
+  Spec.AccountsSpec Spec.PathMutSpec Proofs.AccountsProofs Proofs.AccountsCodec Proofs.PathMutResolve Proofs.AccountsHomes Proofs.PathMutProofs Proofs.PathMutFrame Proofs.PathMutFuel Proofs.PathMutBuild.
 Open Scope string_scope. Open Scope list_scope.
 
 (* the constants in the source are the documented defaults: /bin/sh, /home/,
@@ -103,29 +103,51 @@ Proof.
 Qed.
 Print Assumptions c13_run_as.
 
-(* c13_homes, the part that holds for EVERY entry and tree: a /dev/null home is
-   skipped; an existing directory (also through a symlink) leaves the whole
-   filesystem untouched; an existing non-directory is an error; a missing one is
-   made by MkdirAll(parent, 0755), Mkdir(home, 0700), Chown(home, uid, gid).
-   MISSING from the full statement ("Stat(home) afterwards is a 0700 directory
-   owned by the entry"): it needs "the path resolves to the node Mkdir just
-   made", which is FALSE for a home written with a trailing slash
-   (c13_homes_trailing_slash_refuted, finding C13-F3) and is not proved here for
-   the remaining homes; it is checked on every generated case instead. *)
-Theorem c13_homes_partial : forall maxl f e,
+(* c13_homes.  For every tree and entry: a /dev/null home is skipped; an
+   existing directory (also through a symlink) leaves the whole filesystem
+   untouched; an existing non-directory is an error; a MISSING home (its cleaned
+   path free of "." / "..", which every absolute home is) is created so that
+   - Stat(home) afterwards finds the very node Mkdir made: an empty directory
+     with mode 0700 owned by the entry's uid:gid;
+   - nothing that existed before is changed (kind, mode, owner, link target,
+     content); directories only gain entries ([fs_ext]);
+   - every other node that was added is a 0755 directory owned by root (the
+     missing parents). *)
+Theorem c13_homes : forall maxl f e,
+  let h := home_path (ue_home e) in
   (ue_home e = no_home -> ensure_home maxl f e = FOk f) /\
-  (forall n, stat maxl f (home_path (ue_home e)) = FOk n -> is_dir n = true -> ensure_home maxl f e = FOk f) /\
-  (forall n, ue_home e <> no_home -> stat maxl f (home_path (ue_home e)) = FOk n -> is_dir n = false ->
-             ensure_home maxl f e = FErr) /\
-  (forall f', ue_home e <> no_home -> stat maxl f (home_path (ue_home e)) = FNotExist -> ensure_home maxl f e = FOk f' ->
-     exists f1 f2, mkdirall maxl f (pdir (home_path (ue_home e))) home_parent_perm = FOk f1 /\
-                   mkdir maxl f1 (home_path (ue_home e)) home_perm = FOk f2 /\
-                   chown maxl f2 (home_path (ue_home e)) (ue_uid e) (ue_gid e) = FOk f').
+  (forall n, stat maxl f h = FOk n -> is_dir n = true -> ensure_home maxl f e = FOk f) /\
+  (forall n, ue_home e <> no_home -> stat maxl f h = FOk n -> is_dir n = false -> ensure_home maxl f e = FErr) /\
+  (is_abs (ue_home e) = true -> forallb tidy (p_comps h) = true) /\
+  (forall f', ue_home e <> no_home -> forallb tidy (p_comps h) = true ->
+     stat maxl f h = FNotExist -> ensure_home maxl f e = FOk f' ->
+     exists i, (List.length f <= i)%nat /\ gn maxl f' h = FOk i /\
+       stat maxl f' h = FOk (mkNode KDir home_perm (ue_uid e) (ue_gid e) "" "" [] "") /\
+       fs_ext f f' /\
+       (forall j n, (List.length f <= j)%nat -> j <> i -> get f' j = Some n -> fresh_dir home_parent_perm n)).
 Proof.
-  intros maxl f e. split; [apply ensure_home_homeless|]. split; [intros; eapply ensure_home_existing_dir; eauto|].
-  split; [intros; eapply ensure_home_non_directory; eauto|]. intros. eapply ensure_home_missing; eauto.
+  intros maxl f e h. split; [apply ensure_home_homeless|]. split; [intros; eapply ensure_home_existing_dir; eauto|].
+  split; [intros; eapply ensure_home_non_directory; eauto|]. split; [apply home_path_abs_tidy|].
+  intros f' H1 H2 H3 H4. exact (ensure_home_created maxl f e f' H1 H2 H3 H4).
 Qed.
-Print Assumptions c13_homes_partial.
+Print Assumptions c13_homes.
+
+(* c13_homes_sequence.  The whole loop of mutateAccounts over pre-existing and
+   configured entries (absolute homes): an entry whose home was missing when
+   its turn came — i.e. was not shipped by a package and not made for an
+   earlier entry — has at the END of the loop a directory with mode 0700 and
+   its own uid:gid under its home path, whatever was created afterwards; and
+   the loop as a whole changes nothing that existed. *)
+Theorem c13_homes_sequence : forall maxl pre e post f fk f',
+  forallb abs_home (pre ++ e :: post) = true ->
+  ensure_homes maxl f (pre ++ e :: post) = FOk f' ->
+  ensure_homes maxl f pre = FOk fk ->
+  ue_home e <> no_home -> stat maxl fk (home_path (ue_home e)) = FNotExist ->
+  fs_ext f f' /\
+  exists n, stat maxl f' (home_path (ue_home e)) = FOk n /\
+            nkind n = KDir /\ nperm n = home_perm /\ nuid n = ue_uid e /\ ngid n = ue_gid e.
+Proof. exact ensure_homes_final. Qed.
+Print Assumptions c13_homes_sequence.
 
 (* the former finding C13-F3 (fixed by 82f3aa3, filepath.Clean): a missing home
    declared as "/srv/ts/" is the 0700 directory itself, nothing is nested in it *)
@@ -155,6 +177,64 @@ Theorem c13_mutations_last_partial : forall maxl f ms m f',
             nperm n = m_perm m /\ nuid n = m_uid m /\ ngid n = m_gid m.
 Proof. exact last_mutation_post. Qed.
 Print Assumptions c13_mutations_last_partial.
+
+(* c13_mutations_frame.  What a mutation, and a whole declared sequence, may
+   change in the nodes that existed before it — for every tree (symbolic links,
+   shared hard-link inodes and all), every sequence, every permission value:
+   - no node disappears or changes its kind, link target or backing package entry;
+   - a mode / owner that differs afterwards is one DECLARED by a mutation of the
+     sequence; content that differs has become empty ([changes], Proofs/PathMutFrame.v);
+   - one mutation that is neither empty-file nor a recursive directory changes
+     mode, owner or content of at most ONE old node: the node its own path
+     resolves to afterwards; for a sequence of such mutations the only old nodes
+     that may differ are [targets]: what each mutation's path resolved to right
+     after it was applied.  In particular a node that is no mutation's target —
+     such as the 0700 home made by the accounts step when the declared paths lie
+     BELOW it — keeps mode, owner and content.
+   Directory listings are not constrained here (created parents and the paths'
+   own entries are added, a hardlink mutation replaces the entry at its path). *)
+Theorem c13_mutations_frame : forall maxl,
+  (forall f m f', mutate_one maxl f m = FOk f' ->
+     exists t S, gn maxl f' (path_of (m_path m)) = FOk t /\
+       changes (AP_of m) (AO_of m) (t :: S) f f' /\ (simple m = true -> S = [])) /\
+  (forall ms f f', mutate_paths maxl f ms = FOk f' ->
+     (exists S, changes (AP_seq ms) (AO_seq ms) S f f') /\
+     (forallb simple ms = true -> changes (AP_seq ms) (AO_seq ms) (targets maxl f ms) f f')) /\
+  (forall ms f f' i n, mutate_paths maxl f ms = FOk f' -> forallb simple ms = true ->
+     get f i = Some n -> ~ In i (targets maxl f ms) ->
+     exists n', get f' i = Some n' /\ nkind n' = nkind n /\ nperm n' = nperm n /\ nuid n' = nuid n /\
+                ngid n' = ngid n /\ ndata n' = ndata n /\ ntarget n' = ntarget n).
+Proof.
+  intro maxl. split; [exact (mutate_one_frame maxl)|]. split; [exact (mutate_paths_frame maxl)|].
+  intros ms f f' i n H Hs Hi Hn. destruct (mutate_paths_frame maxl ms f f' H) as (_ & C). destruct (C Hs) as (_ & C').
+  destruct (C' i n Hi) as (n' & G & (K & T & _ & _ & _ & _ & F)). destruct (F Hn) as (P & U & Gd & D).
+  exists n'. repeat split; assumption.
+Qed.
+Print Assumptions c13_mutations_frame.
+
+(* c13_fuel.  The model's own fuel is never what decides: getNode never answers
+   "out of fuel"; on a well-formed heap ([wf]: directory entries that lead to a
+   directory lead to a later-allocated node, no name twice in a listing — true of
+   the empty tree and kept by MkdirAll/Mkdir/OpenFile/Symlink, by Chmod/Chown and
+   by the walk itself) the walk of a recursive directory mutation with the fuel
+   mutateDirectory gives it (heap size + 1) never runs out, mutateDirectory never
+   answers "out of fuel", and [dump] with more fuel lists nothing more.  What [wf]
+   excludes is a hard-linked directory, on which fs.WalkDir itself never ends. *)
+Theorem c13_fuel :
+  (forall d f cs, getnode d f cs <> FFuel) /\
+  (forall p, wf (empty_fs p)) /\
+  (forall maxl perm ps f cur trav f', wf f -> mkdirall_from maxl f cur trav ps perm = FOk f' -> wf f') /\
+  (forall f g, same_listing f g -> wf f -> wf g) /\
+  (forall maxl f p isdir perm u g, wf f -> walk maxl (S (List.length f)) f p isdir perm u g <> FFuel) /\
+  (forall maxl perm u g fuel f p isdir f', walk maxl fuel f p isdir perm u g = FOk f' -> same_listing f f') /\
+  (forall maxl f m, wf f -> mutate_directory maxl f m <> FFuel) /\
+  (forall f k, f <> [] -> dir_edges_up f -> dump_from (S (List.length f) + k) f root_ino "" = dump f).
+Proof.
+  split; [exact getnode_no_fuel|]. split; [exact wf_empty|]. split; [exact mkdirall_from_wf|].
+  split; [exact wf_same_listing|]. split; [exact walk_fuel_suffices|]. split; [exact walk_listing|].
+  split; [exact mutate_directory_no_fuel | exact dump_fuel_suffices].
+Qed.
+Print Assumptions c13_fuel.
 
 (* c13_pipeline_order.  buildImage, as written in the source on this run, shapes
    the tree the packages produced in this order: mutateAccounts, then
